@@ -5,6 +5,9 @@
 mod common;
 mod gen;
 mod c07;
+mod c13;
+mod sup;
+mod c15;
 
 use common::{Ctx, Tier};
 
@@ -16,12 +19,25 @@ fn main() {
     }
     common::install_panic_hook();
     let id = args[1].as_str();
+    if id == "worker" {
+        let space = args[2].clone();
+        let code = sup::worker_main(&space, &|sp, idx| {
+            if sp.starts_with("c13bvh") {
+                c13::worker(sp, idx)
+            } else {
+                serde_json::json!({"verdict": "unknown-space"})
+            }
+        });
+        std::process::exit(code);
+    }
     let tier = match std::env::var("VERIF_TIER").ok().as_deref().or(args.get(2).map(|s| s.as_str())) {
         Some("thorough") => Tier::Thorough,
         _ => Tier::Quick,
     };
     let code = match id {
         "C07" => c07::run(&Ctx::new("C07", tier)),
+        "C13" => c13::run(&Ctx::new("C13", tier)),
+        "C15" => c15::run(&Ctx::new("C15", tier)),
         _ => {
             eprintln!("unknown check {}", id);
             2
